@@ -549,3 +549,5 @@ M('C16', 'seed C16-agent2-2: diagonal view of the output bound to a fresh variab
 M('C19', 'seed C19-agent2-1: substituted value not transposed to the argument order', 'expression_v1.py', "        rhs = rhs.transpose(lhs.indices)\n        return lhs, rhs", "        return lhs, rhs", rule='R19.7')
 M('C19', 'add/sub without transposing the right operand', 'expression_v1.py', "        other = other.transpose(self.indices)\n        shape, linked_lengths = self._join_shapes(other)\n        return _Array((op, self.ast, other.ast)", "        shape, linked_lengths = self._join_shapes(other)\n        return _Array((op, self.ast, other.ast)", rule='R19.7')
 M('C19', 'benign: substitution transposes the left side instead', 'expression_v1.py', "        rhs = rhs.transpose(lhs.indices)\n        return lhs, rhs", "        rhs = rhs.transpose(lhs.indices)\n        assert rhs.indices == lhs.indices\n        return lhs, rhs", expect='silent')
+M('C07', 'revert F24: det hands integer operands to Determinant', 'function.py', "            raise ValueError('Last 2 dimensions of the array must be square')\n        if a.dtype in (bool, int):\n            a = a.astype(float)\n        return _Wrapper(evaluable.Determinant", "            raise ValueError('Last 2 dimensions of the array must be square')\n        return _Wrapper(evaluable.Determinant", rule='R07.9')
+M('C07', 'benign: inv rejects integer operands instead of converting', 'function.py', "        if a.dtype in (bool, int):\n            a = a.astype(float)\n        return _Wrapper(evaluable.Inverse", "        if a.dtype in (bool, int):\n            raise TypeError('integer matrices cannot be inverted')\n        return _Wrapper(evaluable.Inverse", expect='silent')
